@@ -62,6 +62,9 @@ func (r *BatchedPrivateTokenRequest) Marshal() []byte {
 }
 
 func (r *BatchedPrivateTokenRequest) Unmarshal(data []byte) bool {
+	// the cached encoding belongs to the previous contents
+	r.raw = nil
+
 	s := cryptobyte.String(data)
 
 	var tokenType uint16
